@@ -257,6 +257,7 @@ def run(ctx):
     directive_arguments_keep_literals(ctx)
     comment_scanner_reads_one_character_per_step(ctx)
     has_include_agrees_with_include(ctx)
+    definedness_has_one_judge(ctx)
 
 
 def manifest_keys(ctx):
@@ -652,3 +653,37 @@ def has_include_agrees_with_include(ctx):
             ctx.ob("R09.11", inst, ok, f.loc(c), "; ".join(why) if why else
                    ("`%s` starts false and becomes true only for the <...> spelling with _noangles false" % r.get("n") if ok else "`%s` is not a flag that starts false and is set in the function" % r.get("n")))
     ctx.floor("R09.11", "callers of find_include", n, 2)
+
+
+DEFINEDNESS_CONSUMERS = ("CPPPreprocessor::handle_ifdef_directive", "CPPPreprocessor::handle_ifndef_directive", "CPPPreprocessor::expand_defined_function")
+
+
+def definedness_has_one_judge(ctx):
+    """R09.12: `#ifdef X`, `#ifndef X`, `#elifdef X`, `#elifndef X` (which re-enter the two handlers) and `defined(X)` in
+    an #if expression ask the same question and must get the same answer.  is_manifest_defined() is the one place that
+    knows the answer (the macro table plus the built-ins __has_include, __FILE__, __LINE__): each consumer calls it and
+    none looks into the table itself.  (Seed S9-C09: defined() became a bare `_manifests.find()`;
+    `#if defined(__has_include) && __has_include("x")` silently took the #else group.)"""
+    db = ctx.db
+    ctx.rule("R09.12", "handle_ifdef_directive, handle_ifndef_directive and expand_defined_function decide through is_manifest_defined() and do not search _manifests themselves")
+    n = 0
+    for name in DEFINEDNESS_CONSUMERS:
+        fs = [g for g in db.functions if g.name == name]
+        if not fs:
+            ctx.broken("R09.12: %s not found" % name)
+            continue
+        f = fs[0]
+        n += 1
+        asks = [c for c in f.walk() if c.get("k") == "call" and callee_short(c) == "is_manifest_defined"]
+        own = [c for c in f.walk() if c.get("k") == "call" and callee_short(c) in ("find", "count", "at", "operator[]") and
+               any(z.get("k") == "mem" and (z.get("n") or "").endswith("::_manifests") for z in walk(c.get("this") or (c.get("a") or [{}])[0]))]
+        ok = bool(asks) and not own
+        ctx.ob("R09.12", "%s|asks-is_manifest_defined" % name.split("::")[-1], ok, f.loc(own[0]) if own else f.loc(),
+               "decides through is_manifest_defined()" if ok else ("searches _manifests itself: the built-in names are defined for the other directives and not here" if own else "does not ask is_manifest_defined()"))
+    # and the judge knows the built-ins
+    js = [g for g in db.functions if g.name == "CPPPreprocessor::is_manifest_defined"]
+    if js:
+        names = {z.get("v") for z in js[0].walk() if z.get("k") == "str"}
+        ok = {"__has_include", "__FILE__", "__LINE__"} <= names
+        ctx.ob("R09.12", "is_manifest_defined|built-ins", ok, js[0].loc(), "the built-in names are %s" % sorted(x for x in names if x))
+    ctx.floor("R09.12", "consumers of definedness", n, 3)
